@@ -376,14 +376,16 @@ func (gen *generator) gepInstType(elemType, src types.Type, indices []ast.TypeVa
 			idx = gen.getIndex(indexVal)
 		} else {
 			idx = gep.Index{HasVal: false}
-			// Check if index is of vector type.
-			indexType, err := gen.irType(index.Typ())
-			if err != nil {
-				return nil, errors.WithStack(err)
-			}
-			if indexType, ok := indexType.(*types.VectorType); ok {
-				idx.VectorLen = indexType.Len
-			}
+		}
+		// Check if index is of vector type (also for constant indices such as
+		// zeroinitializer, undef and poison, which carry no elements).
+		indexType, err := gen.irType(index.Typ())
+		if err != nil {
+			return nil, errors.WithStack(err)
+		}
+		if indexType, ok := indexType.(*types.VectorType); ok {
+			idx.VectorLen = indexType.Len
+			idx.Scalable = indexType.Scalable
 		}
 		idxs = append(idxs, idx)
 	}
